@@ -295,6 +295,63 @@ def fitter_reuse_cases(run):
                             payload={"kind": "rerun"}, theorem="C11_unscale")
 
 
+def library_guess_cases(run):
+    """fits that leave the initial parameters to the library, on curves whose
+    contact point is far from zero (no tip-offset correction), k vs 1: same
+    contact point and baseline, modulus scaled by k^-p"""
+    from nanite import model
+    for mk, pexp in (("hertz_para", 1.5), ("hertz_cone", 2.0),
+                     ("hertz_pyr3s", 2.0)):
+        for cp in (1.8e-5, -1.2e-5):
+            true = fits.default_params(mk, contact_point=cp, E=5000.0,
+                                       baseline=0.0)
+            cols = fits.model_curve(mk, true, n_app=200, n_ret=80,
+                                    z0=cp + 4e-6, z1=cp - 2e-6)
+            x = np.asarray(cols["tip position"], float)
+            span = float(np.ptp(x))
+            ref = None
+            for k in (1.0, 0.9, 0.5, 2.0, 0.25):
+                cfg = {"library-guess": mk, "contact_point": cp, "k": k}
+                key = f"library-guess:{mk}:{cp}:{k}"
+                run.case(cfg, kind="library-guess")
+                try:
+                    md = model.models_available[mk]
+                    vals = md.get_parameter_defaults()
+                    for n_ in vals:
+                        if n_ in true:
+                            vals[n_].set(value=true[n_])
+                    vd = vals.valuesdict()
+                    vd["contact_point"] = cp * k
+                    c2 = dict(cols)
+                    c2["force"] = md.module.model_func(x * k, **vd)
+                    c2["height (measured)"] = x - c2["force"] / .05
+                    idnt = curves.make_indentation(c2)
+                    with warnings.catch_warnings():
+                        warnings.simplefilter("ignore")
+                        idnt.fit_model(model_key=mk, gcf_k=k, weight_cp=0,
+                                       preprocessing=["compute_tip_position"])
+                    fp = idnt.fit_properties
+                    why = None
+                    if not fp.get("success"):
+                        why = "fit reports success False"
+                    else:
+                        pf = fp["params_fitted"]
+                        got = (pf["E"].value, pf["contact_point"].value,
+                               pf["baseline"].value)
+                        if abs(got[1] - cp) > 1e-5 * span:
+                            why = (f"contact point {got[1]!r}, the curve's "
+                                   f"is {cp!r} (measured units)")
+                        elif abs(got[0] / true["E"] - 1) > 1e-4:
+                            why = (f"modulus {got[0]!r}, generated with "
+                                   f"{true['E']!r} and k = {k}")
+                except BaseException as e:
+                    why = f"raised {type(e).__name__}: {e}"
+                if why:
+                    run.failing(SITE, key, f"{cfg}: {why}",
+                                payload={"kind": "rerun"},
+                                theorem="C11_objective_equiv_*")
+
+
 def curve_history_cases(run):
     """one curve fitted with a correction factor, then only the factor is
     changed (through fit_model and through the stored settings) and the curve
@@ -436,6 +493,7 @@ def check(run):
     failed_then_refit_cases(run)
     fitter_reuse_cases(run)
     curve_history_cases(run)
+    library_guess_cases(run)
     run.rule = ("metamorphic fits k vs 1 on synthetic power-law curves "
                 "(noise-free: 1e-6; noisy with weighting off: 5e-3) x three "
                 "range types x segments x initial contact points; every "
